@@ -74,16 +74,6 @@ func (k Keeper) handleBridgeHook(ctx sdk.Context, data []byte, hookMaxGas uint64
 // safeDepositToken mint and send coins to the recipient. Rollback all state changes
 // if the deposit is failed.
 func (ms MsgServer) safeDepositToken(ctx context.Context, toAddr sdk.AccAddress, coins sdk.Coins) (success bool, reason string) {
-	// if coin is zero, just create an account
-	if coins.IsZero() {
-		if !ms.authKeeper.HasAccount(ctx, toAddr) {
-			newAcc := ms.authKeeper.NewAccountWithAddress(ctx, toAddr)
-			ms.authKeeper.SetAccount(ctx, newAcc)
-		}
-
-		return true, ""
-	}
-
 	var err error
 	defer func() {
 		if r := recover(); r != nil {
@@ -110,6 +100,13 @@ func (ms MsgServer) safeDepositToken(ctx context.Context, toAddr sdk.AccAddress,
 	if err = ms.bankKeeper.SendCoinsFromModuleToAccount(cacheCtx, types.ModuleName, toAddr, coins); err != nil {
 		reason = fmt.Sprintf("failed to send coins: %s", err)
 		return
+	}
+
+	// if coin is zero, just create an account; this happens after the (empty) transfer
+	// so that blocked and module account addresses are refused like for any other amount
+	if coins.IsZero() && !ms.authKeeper.HasAccount(cacheCtx, toAddr) {
+		newAcc := ms.authKeeper.NewAccountWithAddress(cacheCtx, toAddr)
+		ms.authKeeper.SetAccount(cacheCtx, newAcc)
 	}
 
 	// write the changes only if the transfer is successful
